@@ -17,12 +17,13 @@ DefItems == 100
 MaxN == 0
 LimitParams == {0}
 
-VARIABLES n, lim, pos, pages, open, l, mode, hp
+VARIABLES n, lim, pos, pages, open, l, mode, hp, big, aborted
 INSTANCE Pagination
-tvars == <<n, lim, pos, pages, open, l, mode, hp>>
+tvars == <<n, lim, pos, pages, open, l, mode, hp, big, aborted>>
 
 NoHp == [n |-> ""]
-TraceInit == n = 0 /\ lim = 0 /\ pos = 0 /\ pages = <<>> /\ open = TRUE /\ l = 1 /\ mode = "none" /\ hp = NoHp
+TraceInit == /\ n = 0 /\ lim = 0 /\ pos = 0 /\ pages = <<>> /\ open = TRUE /\ l = 1 /\ mode = "none" /\ hp = NoHp
+             /\ big = FALSE /\ aborted = FALSE
 
 KeepScan == UNCHANGED <<n, lim, pos, pages, open>>
 
@@ -32,23 +33,32 @@ Consume(e) ==
   \/ /\ e.ev = "reset" /\ e.kind = "scan"
      /\ e.max = MaxItems /\ e.def = DefItems
      /\ n' = e.n /\ lim' = e.lim /\ pos' = 0 /\ pages' = <<>> /\ open' = TRUE
-     /\ mode' = "scan" /\ hp' = NoHp
+     /\ mode' = "scan" /\ hp' = NoHp /\ big' = e.big /\ aborted' = FALSE
   \/ /\ e.ev = "reset" /\ e.kind = "case"
-     /\ mode' = "case" /\ hp' = NoHp /\ KeepScan
+     /\ mode' = "case" /\ hp' = NoHp /\ KeepScan /\ UNCHANGED <<big, aborted>>
   \/ /\ e.ev = "page" /\ mode = "scan"
      /\ e.status = 200
      /\ e.contig                              \* items inside a page are consecutive
      /\ Fetch([count |-> e.count, first |-> e.first, last |-> e.last, token |-> e.token])
-     /\ UNCHANGED <<mode, hp>>
+     /\ ~big \/ e.count = 0
+     /\ UNCHANGED <<mode, hp, big, aborted>>
+  \* The page selector of this collection is too long for a token: the page
+  \* that would need one fails as a whole (a 5xx), it is never delivered
+  \* without its token.
+  \/ /\ e.ev = "page" /\ mode = "scan" /\ big
+     /\ e.status >= 500 /\ e.count = 0 /\ ~e.token
+     /\ NextPageOf(n, lim, pos).count > 0
+     /\ aborted' = TRUE
+     /\ KeepScan /\ UNCHANGED <<mode, hp, big>>
   \/ /\ e.ev = "scan_end" /\ mode = "scan"
-     /\ ~open /\ pos = n                      \* C15: the scan ended and visited everything
-     /\ e.fetched = Len(pages)
-     /\ KeepScan /\ UNCHANGED <<mode, hp>>
+     /\ \/ ~open /\ pos = n /\ e.fetched = Len(pages)   \* C15: the scan ended and visited everything
+        \/ aborted
+     /\ KeepScan /\ UNCHANGED <<mode, hp, big, aborted>>
   \/ /\ e.ev = "handler_page"
      /\ hp' = e
      /\ mode = "scan" => /\ e.efflimit = EffLimit(IF lim > MaxItems THEN MaxItems + 1 ELSE lim)
                          /\ (pos = 0) = (e.which = "first")
-     /\ KeepScan /\ UNCHANGED mode
+     /\ KeepScan /\ UNCHANGED <<mode, big, aborted>>
   \/ /\ e.ev = "case"
      /\ LET out == Outcome(e.tc, e.lc, e.oc) IN
         IF e.via = "api"
@@ -62,24 +72,24 @@ Consume(e) ==
                   /\ hp # NoHp /\ hp.n = e.nn /\ hp.which = out.k
                   /\ hp.efflimit = EffLimitClass(e.lc, e.limit_val)         \* C14: clamp / default
                   /\ out.k = "next" => hp.sel = e.want_sel                  \* C14: same selector back
-     /\ KeepScan /\ UNCHANGED <<mode, hp>>
+     /\ KeepScan /\ UNCHANGED <<mode, hp, big, aborted>>
   \/ /\ e.ev = "issue"
      /\ Issue(e.enc) = e.out                   \* issued iff within the bound
      /\ e.out = "token" => e.roundtrip /\ e.len <= TokenBound /\ e.len = e.enc
-     /\ KeepScan /\ UNCHANGED <<mode, hp>>
+     /\ KeepScan /\ UNCHANGED <<mode, hp, big, aborted>>
   \/ /\ e.ev = "mutant"
      /\ IF e.class = "valid" THEN e.accepted /\ e.equal ELSE ~e.accepted
-     /\ KeepScan /\ UNCHANGED <<mode, hp>>
+     /\ KeepScan /\ UNCHANGED <<mode, hp, big, aborted>>
   \/ /\ e.ev \in {"accept", "req_start", "version_ok", "route_ok", "extract_ok", "handler_call",
                   "handler_return", "spawn", "task_exit", "resp_ready", "close_requested",
                   "accept_exit", "graceful_done", "waitgroup_done", "req_cancelled"}
-     /\ KeepScan /\ UNCHANGED <<mode, hp>>
+     /\ KeepScan /\ UNCHANGED <<mode, hp, big, aborted>>
   \* no disjunct for scan_runaway
 
 TraceNext == l <= Len(Rec) /\ Consume(Rec[l]) /\ l' = l + 1
 TraceSpec == TraceInit /\ [][TraceNext]_tvars
 
-ScanInv == mode = "scan" => PageBounds /\ Complete
+ScanInv == mode = "scan" => PageBounds /\ (aborted \/ Complete)
 
 ASSUME TLCSet(1, 0) /\ TLCSet(2, <<>>)
 Track ==
